@@ -10,6 +10,68 @@ def xor(a, b):
     return bytes(x ^ y for x, y in zip(a, b))
 
 
+def prompt_mode_seed(ck):
+    """The interactive front end (no arguments: get_v_mod1) is the other caller that hands a seed to the library: the characters the
+    user types at "Please input some random characters." must be what the IV chain is computed from.  The real binary is run with the
+    answers on stdin, in several LAYOUTS of the answers before the seed (trailing blanks / tabs after the numeric answers, empty
+    lines); for the plain layout the stored chain must be the chained SHA-1 of the typed word, for every layout two runs that differ
+    ONLY in the typed seed must store different IVs (a seed the front end drops or replaces by left-over input is not the caller's)."""
+    import base64, os, subprocess
+    try:
+        exe = ck.impl_driver(kind="cli")
+    except wv.BuildError as e:
+        ck.notes.append("CLI build failed: " + str(e)[-200:])
+        return
+    r = ck.rng
+    d = os.path.join(ck.scratch, "ui18")
+    os.makedirs(d, exist_ok=True)
+    key = rnd_bytes(r, 16)
+    K = base64.b64encode(key).decode()
+    open(os.path.join(d, "note.txt"), "wb").write(rnd_bytes(r, 300))
+    alphabet = "abcdefghijklmnopqrstuvwxyzABCDEFGHIJKLMNOPQRSTUVWXYZ0123456789!#%+-=_.,:;@"
+    layouts = [("plain", "%d\n", "%d\n", ""), ("blank-after-hash-answer", "%d\n", "%d \n", ""), ("tab-after-cipher-answer", "%d\t\n", "%d\n", ""),
+               ("blanks-after-both-answers", "%d  \n", "%d \t \n", ""), ("empty-lines-before-seed", "%d\n", "%d\n", "\n\n"), ("blank-before-seed", "%d\n", "%d\n", " ")]
+    n = 0
+    for li, (lname, cfmt, hfmt, pre) in enumerate(layouts):
+        for cm in ([1, 2, 3, 4] if ck.tier == "thorough" else [[2, 1], [4, 3], [1, 2], [3, 4], [2, 3], [4, 1]][li]):
+            hm = r.randrange(3)
+            seeds = ["".join(r.choice(alphabet) for _ in range(r.randrange(1, 40))) for _ in range(2)]
+            if seeds[0] == seeds[1]:
+                seeds[1] += "x"
+            iv = []
+            for sd in seeds:
+                stdin = ("e\nnote.txt\nn\n%s\n" % K) + (cfmt % cm) + (hfmt % hm) + pre + sd + "\n"
+                try:
+                    os.remove(os.path.join(d, "note.txt.wenc"))
+                except OSError:
+                    pass
+                try:
+                    p = subprocess.run([exe], cwd=d, input=stdin.encode(), stdout=subprocess.PIPE, stderr=subprocess.STDOUT, timeout=60)
+                    st = ("CRASH %d" % -p.returncode) if p.returncode < 0 else ("EXIT %d" % p.returncode)
+                    out = p.stdout.decode("utf-8", "replace")[-300:]
+                except subprocess.TimeoutExpired:
+                    st, out = "HANG", ""
+                f = open(os.path.join(d, "note.txt.wenc"), "rb").read() if os.path.isfile(os.path.join(d, "note.txt.wenc")) else b""
+                ck.cov["evaluations"] += 1
+                n += 1
+                rep = {"class": None, "front_end": "interactive prompts (no arguments)", "layout": lname, "stdin": stdin, "typed_seed": sd, "cmode": cm, "hmode": hm, "status": st, "output_tail": out,
+                       "stored_first_iv": f[48:68].hex(), "cwd_layout": "a directory with note.txt (300 random bytes)",
+                       "replay": "run the Wencry binary built from /repo (no arguments) in that directory with the recorded stdin; the IV area starts at byte 48 of note.txt.wenc"}
+                if st != "EXIT 0" or len(f) < 68:
+                    ck.violation("encryption through the interactive prompts did not succeed (%s, layout %s)" % (st, lname), rep)
+                    return
+                if lname == "plain" and f[48:68] != hashlib.sha1(sd.encode()).digest():
+                    rep["expected_first_iv"] = hashlib.sha1(sd.encode()).hexdigest()
+                    ck.violation("interactive encryption: the stored IV chain does not start with SHA-1 of the characters the user typed as the random seed", rep)
+                    return
+                iv.append((f[48:68], stdin))
+            if iv[0][0] == iv[1][0]:
+                rep["other_stdin"], rep["other_typed_seed"] = iv[0][1], seeds[0]
+                ck.violation("interactive encryption: two runs that differ only in the typed random characters stored the SAME IVs - the IVs do not depend on the caller's seed (answers laid out as: %s)" % lname, rep)
+                return
+    ck.cov.setdefault("case_classes", {})["real-binary/prompt-mode-seed-layouts"] = n
+
+
 def run(ck):
     ck.prove(["Properties_C18", "Properties_Src2"], THEOREMS + ["SRC_header"])
     exe = small_driver(ck)
@@ -146,6 +208,7 @@ def run(ck):
                               "replay": "echo '<history>' | harness/drv.cpp built with the flags above against /repo (equal seed values of one history share one buffer)"})
                 break
     dist["seed-buffer-reused-in-one-process"] = len(hl)
+    prompt_mode_seed(ck)
     ck.cov["distinct_nontrivial"] = len(distinct)
     return finish_proof(ck, rule="multi-chunk plaintexts (2..5 chunks of 64 bytes), non-ECB modes, T in {2,3,4,5,16}, every third case with equal plaintext chunks 0 and 1; each encrypted under two seeds. Checked: stored IV slots = chained SHA-1 of the seed and pairwise distinct, IVs and body change with the seed, and whether streams 0 and 1 share their IV (xor of ciphertext chunks vs xor of plaintext chunks in CTR/OFB; equal chunks in CBC/CFB). distinct = distinct (n, cmode, T, class)",
                         assumptions=["known finding K2: all streams start from IV slot 0 (format fixed by C02)"])
